@@ -121,7 +121,12 @@ func (r *lcRun) doFail(t *f1testing.T) {
 }
 
 func (r *lcRun) doFailNow(t *f1testing.T) {
-	switch r.pick("failnow", 5) {
+	switch r.pick("failnow", 7) {
+	case 5:
+		// stopping from inside a timed stage stops the whole function, not just the stage
+		t.Time("stage", func() { t.FailNow() })
+	case 6:
+		t.Time("stage", func() { t.Require().Equal(1, 2) })
 	case 0:
 		t.FailNow()
 	case 1:
@@ -135,8 +140,12 @@ func (r *lcRun) doFailNow(t *f1testing.T) {
 	}
 }
 
-func (r *lcRun) doPanic() {
-	switch r.pick("panic", 9) {
+func (r *lcRun) doPanic(t *f1testing.T) {
+	switch r.pick("panic", 11) {
+	case 9:
+		t.Time("stage", func() { panic(errors.New("planned panic inside a timed stage")) })
+	case 10:
+		t.Time("stage", func() { var m map[string]int; m["x"] = 1 })
 	case 0:
 		panic(errors.New("planned panic error"))
 	case 1:
@@ -191,7 +200,7 @@ func (r *lcRun) exec(f string, i, c int, t *f1testing.T, ownerF string, ownerI i
 		case "failnow":
 			r.doFailNow(t)
 		case "panic":
-			r.doPanic()
+			r.doPanic(t)
 		case "ret":
 			return
 		}
